@@ -1,5 +1,6 @@
 import Driver.OpsApply
 import Driver.OpsCase
+import Driver.OpsVariant
 /-
   rmodel: the executable side of the Lean model.  One request per line on stdin, one canonical
   result line on stdout; the same lines go to the Rust harness and the two streams are diffed.
@@ -9,6 +10,7 @@ import Driver.OpsCase
 def handlers : List (List String → Option String) :=
   [ OpsApply.dispatch
   , OpsCase.dispatch
+  , OpsVariant.dispatch
   ]
 
 def dispatch (fields : List String) : String :=
